@@ -180,7 +180,35 @@ def run(ck):
                 calls = [(bi, t) for (bi, t) in f.calls(r"add_instr_account_energy$") if bi in region]
                 ok = bool(calls) and all(any(a[0] == "const" and a[1].endswith("NUM_ADDED_FUNCTIONS") for a in f.origins(t["args"][1], deep=True)) for (_, t) in calls)
                 ck.ob("DEFUSE", f.path, "call-reindexed-by-NUM_ADDED_FUNCTIONS", ok, "Call(idx + NUM_ADDED_FUNCTIONS)", f.loc(tb))
-        # trailing flush
+        # trailing flush: what is still pending when the sequence ends must be charged and emitted; the only way to a
+        # successful return around the flush is the edge on which nothing is pending
+        fl = [(bi, t) for (bi, t) in f.calls(r"account_energy_push_pending$|add_instr_account_energy$")]
+        empties = set()
+        for (sb, st) in f.switches():
+            o = f.origins(st["d"])
+            if any(a[0] == "call" and a[1].endswith("::is_empty") for a in o) and ("field", "pending_instructions") in f.origins(st["d"], deep=True):
+                neg = sum(1 for a in o if a[0] == "un" and a[1] == "Not") % 2 == 1
+                f_t = [tb for v, tb in st["t"] if v == "0"]
+                if f_t:
+                    # edge taken when is_empty() is true
+                    empties.add((sb, f_t[0] if neg else st["o"]))
+        acc, _ = f.accept_points()
+        # a successful return of run() is reached from the main loop's exit; only paths that do not pass a flush count
+        flush_bbs = set(b for (b, _) in fl)
+        loop_heads = [bi for (bi, t) in f.calls(r"Iterator::next$") if bi in f.reach_from(f.succ(bi))]
+        seen, work = set(), list(loop_heads) or [0]
+        while work:
+            x = work.pop()
+            if x in seen or x in flush_bbs:
+                continue
+            seen.add(x)
+            for y in f.succ(x):
+                if (x, y) not in empties:
+                    work.append(y)
+        leak = sorted(set(acc) & seen)
+        ck.ob("DOM", f.path, "trailing-instructions-flushed", bool(fl) and not leak,
+              "from the instruction loop every successful return passes a flush of the pending instructions unless none are pending" if not leak else
+              "a successful return (bb%s) is reachable from the instruction loop without flushing the pending instructions and their charge" % leak, f.loc())
     g = getfn(ck, "sc", W, M + "InstrSeqTransformer::<'b, CostConfig, C>::add_instr_account_energy")
     if g:
         fl = g.calls(r"account_energy_push_pending$")
